@@ -210,6 +210,8 @@ def c17_case(draw):
     sym_names = sorted({nm for t in toks_all if t.base_kind == "sym" for nm in dl.expr_names(t.base) if nm.isascii()})
     if draw(st.integers(0, 5 if not sym_names else 1)) == 0 and not any(t.base_kind == "sym" and dl.expr_holes(t.base) for t in toks_all):
         pool = sym_names + [nm for nm in ["n", "a", "b", "c"] if nm not in sym_names]
+        if draw(st.integers(0, 2)) == 0:
+            pool = ["self"] + pool  # a (PyTree-of-arrays) object named self: nothing may ask for its truth value or compare it
         order = draw(st.permutations(range(n)))
         for idx, nm in zip(order, pool):
             case["params"][idx]["name"] = nm
